@@ -280,6 +280,21 @@ def run(ctx):
                                    {"kind": "malformed", "text": text.rstrip() + unit if unit else text})
                 part.count("malformed_cases")
                 part.count("lookalike_cases")
+    # words that CSS / SVG allow where a length may stand (and a few that only look the part):
+    # none of them has a numeric part
+    for word in ("auto", "inherit", "initial", "unset", "none", "normal", "medium", "thin", "thick",
+                 "100", "fit-content", "max-content", "min-content", "calc(5px)", "infinity",
+                 "Infinity", "NaN", "true", "None", "px5", "mm 5", "5 mm 5", "0x10", "1e", "e1",
+                 "--5", "+-5", "5..", "..5", "5e1.5", "1,5", "5;", "#5", "5px;"):
+        for text in (word, " " + word + " ", word.upper()):
+            if text.strip() in ("100", "0X10") or NUMBER.match(text.strip()):
+                continue
+            if text.strip().lower() in ("infinity", "nan", "inf"):
+                continue                    # Python-only numerals: outside the quantifier
+            for clause, msg in check_malformed(text):
+                part.violation(f"{clause}:word:{text!r}", msg, {"kind": "malformed", "text": text})
+            part.count("malformed_cases")
+            part.count("keyword_cases")
     for msg in check_absent():
         part.violation("absent", msg, {"kind": "absent"})
     part.count("malformed_cases", 2)
